@@ -103,6 +103,9 @@ def fill_voice(rng, length, opts):
 
 def gen_score(rng, profile="full", size="small"):
     """profile: full | midi | match | unfold | kernmei | plain"""
+    meter_changes_ok = profile == "mei2"  # mei2 = mei + time-signature changes at barlines
+    if profile == "mei2":
+        profile = "mei"
     nparts = 1 if profile in ("match", "unfold", "simple") else rng.choice((1, 1, 2, 2, 3))
     nmeas = rng.choice((1, 2, 3, 4, 6)) if size == "small" else rng.choice((4, 6, 8))
     if profile == "unfold":
@@ -121,7 +124,7 @@ def gen_score(rng, profile="full", size="small"):
         change = None
         if m == 0:
             change = cur
-        elif rng.random() < 0.15 and profile not in ("unfold", "mei", "simple"):
+        elif rng.random() < (0.3 if meter_changes_ok else 0.15) and (meter_changes_ok or profile not in ("unfold", "mei", "simple")):
             new_ts = wchoice(rng, TIMESIGS, TIMESIGS_W)
             if new_ts != cur:  # a repeated identical signature is not a change
                 cur = new_ts
